@@ -60,13 +60,13 @@ WDEC = ("ensures with (s, out) = drun(view(state), data) under the production li
         "Ok => view(state') = s /\\ bytes' = bytes ++ out; pending unchanged; append-only; no panic")
 
 
-def d_fn(fn, text, subs=()):
-    return w_fn(DI, fn, text, props=("C01", "C07", "C09"), subs=subs, prefix="w_dec_", cls="Decoder")
+def d_fn(fn, text, subs=(), props=("C01", "C07", "C09")):
+    return w_fn(DI, fn, text, props=props, subs=subs, prefix="w_dec_", cls="Decoder")
 
 
 HCOBS = VerusUnit(
     name="hcobs",
-    uses=["use std::num::NonZeroUsize;", "use std::num::NonZeroU32;"],
+    uses=["use std::num::NonZeroUsize;", "use std::num::NonZeroU32;", "use std::io::Read;"],
     segments=[
         VItem(LIB, ["const RADIX"]),
         VItem(LIB, ["const STUFF_SEQUENCE"]),
@@ -136,6 +136,11 @@ HCOBS = VerusUnit(
             w_fn(EI, "encode", WSEM),
             w_fn(EI, "encode_copy", WSEM),
             w_fn(EI, "encode_anchored", WSEM, subs=[UNSAFE_COMPONENTS]),
+            w_fn(EI, "read_n", "ensures the encoder's output, state and pending set are untouched whatever the read returns; "
+                               "Ok(slice) => |slice| <= count; no panic (the internal assert is discharged from the assumed "
+                               "ByteArena::read_n contract)", props=("C17",)),
+            w_fn(EI, "encode_read", "Err => output unaffected (sem unchanged); Ok(n) => n <= count and exactly the n bytes read "
+                                    "were encoded (exists s, |s| = n, sem'(z) == sem(s ++ z))", props=("C17",)),
             w_fn(EI, "finish", "requires inv; ensures returned bytes == sem(empty) = closed output ++ canonical encoding of the open "
                                "chunk; the encoder's placeholder is filled; frame"),
         ]),
@@ -145,6 +150,12 @@ HCOBS = VerusUnit(
             d_fn("decode", WDEC),
             d_fn("decode_copy", WDEC),
             d_fn("decode_anchored", WDEC, subs=[UNSAFE_COMPONENTS]),
+            d_fn("read_n", "ensures decoder state, output and pending set untouched; Ok(slice) => |slice| <= count; no panic",
+                 props=("C17",)),
+            d_fn("decode_read", "output only grows (prefix kept), pending untouched; Ok(n) => n <= count and exactly the n bytes "
+                                "read were decoded; a failed read decodes nothing", props=("C17",),
+                 subs=[("N9", "std::io::Error::other(e)", "io_error_other_dec(e)",
+                        "std::io::Error::other (generic over Into<Box<dyn Error>>) -> monomorphic assumed alias")]),
             d_fn("finish", "ensures Ok(iovec) <=> view == Before(insert = true); the output is returned unchanged; no panic"),
         ]),
         VGhost("lemmas_enc.rs"),
@@ -168,4 +179,5 @@ HCOBS = VerusUnit(
         VLemma("lemma_spk_backfill", ["C09"], "backfilling a pending placeholder keeps every stable prefix"),
     ],
     rlimit=50,
+    cex_search={"crate": "hcobs", "attach_to": "hcobs/src/lib.rs", "src": "cex_search.rs", "filter": "verif_cex"},
 )
